@@ -28,7 +28,7 @@ def run(ctx):
         more += ctx.tlc_gen("MC_Persist", gen(crash="FALSE", invs=INVS, maxops=4, maxhist=7, nodeids="{1}", labels="LS2", view="",
                                               emit="ACTION_CONSTRAINT EmitRec"),
                             "allseq4", workers=WORKERS, timeout=1800)
-    scripts += cap(ctx, more, 70 if q else 2500)
+    scripts += cap(ctx, more, 70 if q else 1200)
     # every script is one request sequence followed by Restart, Recover
     scripts = [s for s in scripts if [st["op"] for st in s[-2:]] == ["Restart", "Recover"]
                and not any(st["op"] in ("Restart", "Recover", "Crash") for st in s[1:-2])]
